@@ -67,6 +67,15 @@ def const_rules(ctx):
         fl = r.field("m_data")
         ok = fl is not None and ("std::shared_ptr<const %s>" % t) in fl["type"] and fl["access"] == "private"
         ctx.ob(rid, ok, site, "the committed value is held privately as shared_ptr<const T>", "" if ok else str(fl and fl["type"]), inst=r.qname)
+        # the commit nests the inner store's writer mutex inside m_writeMutex: that inner mutex is the library's own
+        # std::mutex, never an instance of the user-supplied Mutex type (two nested locks of one user-chosen class have
+        # no defined order; instrumented / pooled mutex types deadlock on it)
+        if fl is not None and len(r.targs) > 1 and r.targs[1] != "std::mutex":
+            inner = fl["type"].rstrip(">").rsplit(",", 1)[-1].strip()
+            ok = inner != r.targs[1]
+            ctx.ob(rid, ok, site, "the inner left-right store does not use the user-supplied mutex type for the lock it takes "
+                   "inside m_writeMutex", "" if ok else "m_data is %s: every commit locks two %s instances nested" % (fl["type"], inner),
+                   inst=r.qname)
         fl = r.field("m_writeMutex")
         ok = fl is not None and fl["access"] == "private"
         ctx.ob(rid, ok, site, "m_writeMutex is private", "", inst=r.qname)
